@@ -52,10 +52,36 @@ def main(argv=None):
     cap = plan.get("time_cap_s")
     if cap:
         deadline = t0 + cap
+    known = load_findings(prop)
+    matchers = getattr(H, "MATCHERS", {})
+    finalize = getattr(H, "finalize", None)
+
+    def post(v):
+        """runs in the worker: minimise, confirm by replay, match against known findings"""
+        raw = v
+        if finalize is not None:
+            try:
+                v = finalize(v)
+            except Exception as e:  # harness bug in the minimiser: keep the raw one
+                v = dict(raw)
+                v["finalize_error"] = repr(e)
+        if v is None:
+            return {"nondeterministic": True, "raw": raw}
+        for e in known:
+            fn = matchers.get(e["match"]["fn"])
+            try:
+                if fn is not None and fn(v, **e["match"].get("args", {})):
+                    v["known"] = e["id"]
+                    break
+            except Exception as ex:
+                v["matcher_error"] = repr(ex)
+        return v
+
+    base._POST = post
     total = base.pmap(plan["run"], plan["tasks"], procs=args.procs, deadline=deadline)
-    post = plan.get("post")
-    if post:
-        post(total)
+    postfn = plan.get("post")
+    if postfn:
+        postfn(total)
 
     # ---------------- triage
     herr = total.n.get("harness_errors", 0)
@@ -63,49 +89,20 @@ def main(argv=None):
         print(note[:3000])
     if len(total.notes) > 3:
         print("... %d more notes" % (len(total.notes) - 3))
-    known = load_findings(prop)
-    matchers = getattr(H, "MATCHERS", {})
     reported = {}  # signature -> record
     known_hit = {}
-    finalize = getattr(H, "finalize", None)
-    tri_budget = time.time() + float(os.environ.get("VERIF_TRIAGE_S", "120"))
-    presig = getattr(H, "presig", None)
-    groups = {}
+    kn = {e["id"]: e for e in known}
     for v in total.violations:
-        try:
-            k = presig(v) if presig is not None else base.stable_hash(v.get("failure"))
-        except Exception:
-            k = base.stable_hash(v.get("case"))
-        groups.setdefault(k, []).append(v)
-    # one representative per group first, then (budget permitting) the rest
-    queue = [g[0] for g in groups.values()] + [v for g in groups.values() for v in g[1:3]]
-    for qi, v in enumerate(queue):
-        raw = v
-        over = time.time() > tri_budget or len(reported) >= 30
-        if over and qi >= len(groups):
-            break
-        if finalize is not None and not over:
-            try:
-                v = finalize(v)
-            except Exception as e:  # harness bug in the minimiser: keep the raw one
-                v = dict(v)
-                v["finalize_error"] = repr(e)
-        if v is None:
+        if v.get("nondeterministic"):
             # did not reproduce on replay: harness nondeterminism, never a VIOLATION
             herr += 1
             print("HARNESS-NONDETERMINISM property=%s (a raw violation did not reproduce on replay): %s"
-                  % (prop, json.dumps(raw, default=base._json_default)[:600]))
+                  % (prop, json.dumps(v.get("raw"), default=base._json_default)[:600]))
+            continue
+        if v.get("known") in kn:
+            known_hit.setdefault(v["known"], [kn[v["known"]], 0])[1] += 1
             continue
         sig = v.get("signature") or base.stable_hash(v.get("case"))
-        hit = None
-        for e in known:
-            fn = matchers.get(e["match"]["fn"])
-            if fn is not None and fn(v, **e["match"].get("args", {})):
-                hit = e
-                break
-        if hit is not None:
-            known_hit.setdefault(hit["id"], [hit, 0])[1] += 1
-            continue
         if sig not in reported:
             reported[sig] = v
 
